@@ -465,25 +465,31 @@ def str_method(ev: Ev, s: Val, name: str, args: list[Val], n: ast.Call) -> Val:
 		hi = ln
 		if len(args) > 1:
 			i = ev.norm_index(args[1], ln)
-			lo = z3.If(i < 0, 0, z3.If(i > ln, ln, i))
+			lo = i if ev.known(z3.And(i >= 0, i <= ln)) else z3.If(i < 0, 0, z3.If(i > ln, ln, i))
 		if len(args) > 2:
 			j = ev.norm_index(args[2], ln)
-			hi = z3.If(j < 0, 0, z3.If(j > ln, ln, j))
-		hay = z3.SubString(x, lo, z3.If(hi > lo, hi - lo, 0))
-		r = ev.eng.fresh(INT, 'rfind').term
-		nl = z3.Length(needle.term)
-		hl = z3.Length(hay)
-		ev.st.assume(z3.Or(
-			z3.And(r == -1, z3.Not(z3.Contains(hay, needle.term))),
-			z3.And(r >= lo, r - lo + nl <= hl, z3.SubString(hay, r - lo, nl) == needle.term,
-				z3.Not(z3.Contains(z3.SubString(hay, r - lo + 1, hl - (r - lo) - 1), needle.term)))))
-		return Val(INT, r)
+			hi = j if ev.known(z3.And(j >= 0, j <= ln)) else z3.If(j < 0, 0, z3.If(j > ln, ln, j))
+		# last occurrence lying inside [lo, hi): recursion on the end position (deterministic; the same term in code and contracts)
+		f = ev.rec('rf_rfind', [STR, STR, INT, INT], INT, lambda h, p, a, b, me: z3.If(b - z3.Length(p) < a, -1,
+			z3.If(z3.SubString(h, b - z3.Length(p), z3.Length(p)) == p, b - z3.Length(p), me(h, p, a, b - 1))))
+		return Val(INT, f(x, needle.term, lo, hi))
 	if name == 'startswith':
 		p = ev.coerce(args[0], STR)
 		return Val(BOOL, z3.PrefixOf(p.term, x))
 	if name == 'endswith':
 		p = ev.coerce(args[0], STR)
 		return Val(BOOL, z3.SuffixOf(p.term, x))
+	if name == 'count' and len(args) == 3:
+		needle = ev.coerce(args[0], STR)
+		i = ev.norm_index(args[1], ln)
+		lo = i if ev.known(z3.And(i >= 0, i <= ln)) else z3.If(i < 0, 0, z3.If(i > ln, ln, i))
+		j = ev.norm_index(args[2], ln)
+		hi = j if ev.known(z3.And(j >= 0, j <= ln)) else z3.If(j < 0, 0, z3.If(j > ln, ln, j))
+		if needle.is_conc() and len(needle.conc) != 1:
+			raise EngineError('count(x, lo, hi) is modelled for single-character needles')
+		# occurrences of one character in [lo, hi): recursion on the end position
+		f = ev.rec('rf_countc', [STR, STR, INT, INT], INT, lambda h, c, a, b, me: z3.If(b <= a, 0, me(h, c, a, b - 1) + z3.If(z3.SubString(h, b - 1, 1) == c, 1, 0)))
+		return Val(INT, f(x, needle.term, lo, hi))
 	if name == 'count':
 		needle = ev.coerce(args[0], STR)
 		f = ev.rec('rf_count', [STR, STR], INT, lambda a, b, me: z3.If(z3.Or(z3.IndexOf(a, b, 0) < 0, z3.Length(b) == 0), 0, 1 + me(z3.SubString(a, z3.IndexOf(a, b, 0) + z3.Length(b), z3.Length(a) - (z3.IndexOf(a, b, 0) + z3.Length(b))), b)))
@@ -660,7 +666,11 @@ def construct(ev: Ev, cref: ClassRef, n: ast.Call) -> Val:
 			assert isinstance(rty, TRec)
 			init = source.find_method(cref.module, name, '__init__')
 			if init is None:
-				raise EngineError(f'{name} has no __init__')
+				# NamedTuple-style class: positional fields in declaration order
+				vals = [ev.eval(a) for a in n.args]
+				if len(vals) != len(rty.fields):
+					raise EngineError(f'{name}(...): expected {len(rty.fields)} fields')
+				return Val(rty, rty.mk(*[ev.coerce(v, t).term for v, (_, t) in zip(vals, rty.fields)]))
 			args, kwargs = eval_args(ev, n)
 			blank = ev.eng.fresh(rty, 'new_' + name.split('.')[-1])
 			out = call_function(ev, init, [blank] + args, kwargs, recv=blank, recv_name=None, node=n, want_self=True)
